@@ -88,7 +88,7 @@ def sortBy {α} (key : α → List Char) (l : List α) : List α := l.foldr (ins
 
 /-- `QuotedValue` of an array: `(v1 v2 …)` -/
 def quoteArray (vs : List (List Char)) : List Char :=
-  '(' :: ((" ".toList).intercalate (vs.map quote) ++ [')'])
+  '(' :: (joinSp (vs.map quote) ++ [')'])
 
 /-- `separator` of `print_one` -/
 def sepOf (name : List Char) : List Char := if name.head? = some '-' then "-- ".toList else []
@@ -167,7 +167,7 @@ def varEntryOk (builtin : String) (opts : Var → List Char) (significant : Bool
     | .scalar s =>
       readBackDecl (args (dropNl (printVar builtin opts significant v))) == some (pre ++ [v.name ++ ['='] ++ s])
     | .array vs =>
-      readBack ((" ".toList).intercalate (vs.map quote)) == some vs
+      readBack (joinSp (vs.map quote)) == some vs
         && readBack (quote v.name) == some [v.name]
         && (!(!(opts v).isEmpty || significant) || attrLine)
     | .none => attrLine
@@ -181,7 +181,7 @@ def trapEntryOk (t : String × List Char) : Bool :=
 def setEntryOk (v : Var) : Bool :=
   match v.value with
   | .scalar s => readBack (dropNl (printSet v)) == some [v.name ++ ['='] ++ s] && readBack (quote s) == some [s]
-  | .array vs => readBack ((" ".toList).intercalate (vs.map quote)) == some vs
+  | .array vs => readBack (joinSp (vs.map quote)) == some vs
   | .none => true
 
 /-- Spec verdict on a state: every listed entry re-reads as the words that recreate it -/
